@@ -125,6 +125,8 @@ inductive Act where
   | queueBatched (c : Nat)        -- QueueRPC of a batchable call (rpcQueueSize > 1)
   | queueDirect (c : Nat)         -- QueueRPC of an unbatched call (SkipBatch, scan, …)
   | queueUnsendable (c : Nat)     -- QueueRPC of an unbatched call whose request fails to marshal
+  | queueDirectClosing (c : Nat)  -- QueueRPC of an unbatched call during whose serialisation (after the
+                                  -- liveness check, before it is registered) the connection is closed
   | cancel (c : Nat)              -- the call's context ends
   | write (w : Who) (last : Bool) (r : IO)   -- a conn.Write unit of w's frame returns
   | arm (w : Who) (r : IO)        -- conn.SetReadDeadline(now+timeout) returns
@@ -307,6 +309,16 @@ def step (s : St) : Act → Option St
       if s.done then none else some { s with dropped := s.dropped ++ [c] }
     else if s.done then some { s with delivered := s.delivered ++ [Dlv.mk c .connErr none] }
     else some (startSend s (.direct c) (.single c))
+  | .queueDirectClosing c =>
+    -- QueueRPC has seen the connection alive; while the request is being serialised an external
+    -- Close() runs to completion (done, connection closed, everything registered so far failed);
+    -- then the call is registered — after the sweep — counted and written to the closed connection
+    if s.handed.contains c then none else
+    let s := { s with handed := s.handed ++ [c] }
+    if s.ctxDone.contains c then
+      if s.done then none else some { s with dropped := s.dropped ++ [c] }
+    else if s.done then some { s with delivered := s.delivered ++ [Dlv.mk c .connErr none] }
+    else some (startSend (failConn s) (.direct c) (.single c))
   | .queueUnsendable c =>
     -- send: register (the id is consumed), marshalProto fails before the request is counted in
     -- flight or written; trySend unregisters it again and QueueRPC completes the call with the
@@ -324,6 +336,10 @@ def step (s : St) : Act → Option St
     some { s with ctxDone := s.ctxDone ++ [c], offered := s.offered.filter (· != c),
                   dropped := if s.offered.contains c then s.dropped ++ [c] else s.dropped }
   | .write w last r =>
+    -- environment: a Write or SetReadDeadline that completes after `fail` has closed the connection
+    -- reports an error (net.Conn contract); a success completing concurrently with `fail` is the
+    -- run in which the success event comes first (it reads and writes nothing `fail` touches)
+    if s.done && r == .ok then none else
     match findSend s w .write with
     | none => none
     | some snd =>
@@ -336,6 +352,7 @@ def step (s : St) : Act → Option St
           if mHeld s1 then some { setPhase s1 w .armWait with mWait := s1.mWait ++ [.sender w] }
           else some (senderAtM s1 w)
   | .arm w r =>
+    if s.done && r == .ok then none else
     match findSend s w .arm with
     | none => none
     | some snd =>
